@@ -27,7 +27,13 @@ def main(argv=None) -> int:
         repo = Repo(args.repo)
         mod = importlib.import_module(f"pdtsa.rules.{prop.lower()}")
         chk = Check(prop, repo, args.tier, seed, replay_key)
-        mod.run(chk)
+        try:
+            mod.run(chk)
+        except AnalysisError as e:
+            # an anchor vanished half-way: if a violation was already established it is the verdict
+            if not chk.findings:
+                raise
+            chk.note(f"analysis stopped early: {e}")
         return chk.finish()
     except AnalysisError as e:
         print(f"ANALYSIS-ERROR property={prop}: {e}")
